@@ -371,6 +371,43 @@ func (ex *Exec) execAssign(s *ast.AssignStmt, st *State) {
 			ex.storeLV(st, tg[i].lv, v)
 		}
 	}
+	ex.onAssignUses(s, st)
+}
+
+// onAssignUses adds the lemma instances of "on v: use ..." clauses after an assignment to v in
+// the function under verification.
+func (ex *Exec) onAssignUses(s *ast.AssignStmt, st *State) {
+	f := ex.cur()
+	if ex.recursing == nil || ex.recursing.fi != f.fi || f.lit != nil || len(ex.frames) != 2 || ex.suppress > 0 {
+		return
+	}
+	for _, c := range ex.recursing.blk.Clauses {
+		if c.Kind != "use" || c.Loop != -3 {
+			continue
+		}
+		hit := false
+		for _, l := range s.Lhs {
+			if id, ok := l.(*ast.Ident); ok && id.Name == c.OnVar {
+				hit = true
+			}
+		}
+		if !hit {
+			continue
+		}
+		e, err := ex.prog.CheckExprAt(f.fi.Pkg, s.End(), c.Go)
+		if err != nil {
+			unsupported("on %s: use %s does not type-check at %s: %v", c.OnVar, c.Text, ex.pos(s.Pos()), err)
+		}
+		ex.suppress++
+		g := ex.evalBool(e, st.fork(st.pc))
+		ex.suppress--
+		ex.facts = append(ex.facts, g)
+		if ex.prog.Axioms[lemmaKey(f.fi.Pkg.Name, c.ID)] {
+			ex.assumptions["AXIOM "+lemmaKey(f.fi.Pkg.Name, c.ID)+" (assumed, see the contract file)"] = true
+		} else {
+			ex.usedContracts["lemma "+lemmaKey(f.fi.Pkg.Name, c.ID)] = true
+		}
+	}
 }
 
 // evalMulti evaluates an expression that yields n values (call, map index, type assert).
